@@ -140,3 +140,31 @@ package ipns
 //@ func NameFromPeer
 //@   assumed
 //@   pure
+
+// ---- C25: the key a record is verified with is the key of the name -------------------------------
+// Either the record embeds a public key, and then that key is accepted only if the peer ID derived
+// from it is the name (a key of the right type is not enough); or it embeds none, and the key is the one
+// inlined in the name itself.
+// (every call of errors.Join in this package passes one of the package's non-nil error values first)
+//@ func ext errors.Join
+//@   ensures result != nil
+//@ func (Name).Equal
+//@   assumed
+//@   pure
+//@ func (Name).Peer
+//@   assumed
+//@   pure
+//@ func (*Record).PubKey
+//@   assumed
+//@ func ExtractPublicKey
+//@   prop C25
+//@   arith int
+//@   requires rec != nil
+//@   modifies all
+//@   ensures[an_embedded_key_must_hash_to_the_name] err == nil && res("call:Record.PubKey#0", 1) == nil ==> called("call:IDFromPublicKey#0") && res("call:IDFromPublicKey#0", 1) == nil && called("call:Name.Equal#0") && res("call:Name.Equal#0", 0) && result0 == res("call:Record.PubKey#0", 0)
+//@   ensures[without_an_embedded_key_the_name_provides_it] err == nil && res("call:Record.PubKey#0", 1) != nil ==> called("call:ID.ExtractPublicKey#0") && result0 == res("call:ID.ExtractPublicKey#0", 0)
+//@   site[peer_id_of_the_embedded_key] call:IDFromPublicKey : arg0 == res("call:Record.PubKey#0", 0)
+//@   site[name_of_that_peer_id] call:NameFromPeer : arg0 == res("call:IDFromPublicKey#0", 0)
+//@   site[compared_with_the_name_asked_for] call:Name.Equal : arg0 == name && arg1 == res("call:NameFromPeer#0", 0)
+//@   site[key_inlined_in_the_name_asked_for] call:ID.ExtractPublicKey : arg0 == res("call:Name.Peer#0", 0)
+//@   site[peer_of_the_name_asked_for] call:Name.Peer : arg0 == name
